@@ -9,6 +9,7 @@ import (
 	"os"
 	"runtime"
 	"strconv"
+	"time"
 
 	_ "github.com/berquerant/crd/zz_verif/models" // keeps the model package in every harness build
 )
@@ -215,3 +216,45 @@ func NondetSpawnOrder(on bool) {}
 
 // CPUs sets what runtime.GOMAXPROCS(0) and runtime.NumCPU() report; natively it sets GOMAXPROCS.
 func CPUs(n int) { runtime.GOMAXPROCS(n) }
+
+// stdinPortion tells the engine that the next Read on a file returns at most n bytes (a short
+// read, as a pipe delivers when the producer has not written everything yet). io.Reader's
+// contract allows it at any time; natively StdinFrom produces it with a real pipe.
+func stdinPortion(n int) {}
+
+// StdinFrom makes os.Stdin deliver the contents of the file at path; with firstPortion > 0 the
+// first read returns at most that many bytes and the rest arrives later. The returned function
+// restores os.Stdin.
+func StdinFrom(path string, firstPortion int) (restore func(), err error) {
+	old := os.Stdin
+	if !Native() || firstPortion <= 0 {
+		f, err := os.Open(path)
+		if err != nil {
+			return func() {}, err
+		}
+		os.Stdin = f
+		if firstPortion > 0 {
+			stdinPortion(firstPortion)
+		}
+		return func() { os.Stdin = old; f.Close() }, nil
+	}
+	b, err := os.ReadFile(path)
+	if err != nil {
+		return func() {}, err
+	}
+	r, w, err := os.Pipe()
+	if err != nil {
+		return func() {}, err
+	}
+	if firstPortion > len(b) {
+		firstPortion = len(b)
+	}
+	go func() {
+		w.Write(b[:firstPortion])
+		time.Sleep(300 * time.Millisecond)
+		w.Write(b[firstPortion:])
+		w.Close()
+	}()
+	os.Stdin = r
+	return func() { os.Stdin = old; r.Close() }, nil
+}
